@@ -5,20 +5,66 @@ import os
 
 VERIF = os.path.dirname(os.path.dirname(os.path.abspath(__file__)))
 
-CLAIMED = {
-    "C11": {
-        "category": "proof",
-        "text": "Coq theorems (Properties/C11.v, closed under the global context) prove for ARBITRARY error lists - any nesting, any "
-                "paths - that the model of ErrorTree returns at every path exactly the errors with that path (incl. nested child errors), "
-                "contains nothing else, has a node exactly for the prefixes of stored paths, and is empty iff there are no errors. The model is "
-                "tied to errors.py on every run by a differential test (random error forests through the real tree classes vs the extracted "
-                "model, node by node) and the property's oracle runs on the trees of real validations, also on re-used validators.",
-        "design_ref": "DESIGN.md section 6 C11",
-        "note": "Trusted: Coq kernel; hand-written tree model (Model/Tree.v) bound to the code only by the correspondence run; translator for "
-                "the bit masks; extraction + OCaml driver. Order of errors inside a node is not compared.",
-        "technique": "Rocq proof by induction over paths and nested errors + model/code correspondence check",
-    },
+import re
+
+
+def level_of(pid):
+    src = open(os.path.join(VERIF, "harness", "props", pid.lower() + ".py")).read()
+    return re.search(r'^LEVEL = "([a-z_]+)"', src, flags=re.M).group(1)
+
+
+TEXT = {
+    "C01": ("Reference interpreter = the Coq validation model at the documented facts (Spec); every run diffs the real validate(normalize=False) against it and against "
+            "the model at the facts re-extracted from the source (Impl) on verdict and recursive (path, code, children) error keys over schema-directed and arbitrary documents.",
+            "DESIGN.md section 6 C01"),
+    "C02": ("normalized()/validate() of the real code diffed against the Coq normalization model (pipeline order = step tokens extracted from __normalize_mapping; Spec = documented order) "
+            "on processed document and error keys, with the callable pool; tuples checked for container-type preservation.", "DESIGN.md section 6 C02"),
+    "C03": ("Every entry point (validate, validate(normalize=False), validated, normalized, errors) on accepted schemas x mapping documents incl. a rule x value-shape matrix and raising "
+            "user callables: any exception escaping is a violation keyed by (type, innermost cerberus function); the model's exception behaviour is diffed against the code.", "DESIGN.md section 6 C03"),
+    "C04": ("Grammar schemas must be accepted and single-point corruptions at any rule-set position must raise SchemaError through all entry points, leaving schema / allow_unknown in force; judged on a cold cache.",
+            "DESIGN.md section 6 C04"),
+    "C05": ("Deep/repr snapshots of the caller's document, validator.schema, allow_unknown rule sets and registries (module-level and validator-bound, with reference chains) around every API call; "
+            "identity of validator.document; normalize=False leaves the document equal.", "DESIGN.md section 6 C05"),
+    "C06": ("The API agreement relations and the composition law (readonly-free schemas) evaluated with six fresh real validators per generated case.", "DESIGN.md section 6 C06"),
+    "C07": ("Random call histories (mixed flags, invalid / non-mapping documents, accepted and rejected per-call schemas) and all histories of length <= 2/3 over a pool of 8 calls: used instance vs fresh instance on "
+            "result, error keys, both trees node by node, processed document, rendered errors.", "DESIGN.md section 6 C07"),
+    "C08": ("Submission histories over four validator classes and all entry points, with type-twins, context-twins, corrupted tails of *of lists and subclass-only schemas: warm run vs run with caches cleared before every submission.",
+            "DESIGN.md section 6 C08"),
+    "C09": ("Recount oracle on the real code (each definition validated on its own by a fresh validator with inherited type/allow_unknown) against error.info and definitions_errors; *of errors diffed against the Spec/Impl models.",
+            "DESIGN.md section 6 C09"),
+    "C10": ("Standalone sub-document oracle on the real code for schema (dict/list), items, valuesrules, keysrules, with per-field overrides; directed family for root-relative dependencies; group errors diffed against the Spec/Impl models.",
+            "DESIGN.md section 6 C10"),
+    "C11": ("Coq theorems (Properties/C11.v, closed under the global context) prove for ARBITRARY error lists - any nesting, any paths - that the model of ErrorTree returns at every path exactly the errors with "
+            "that path (incl. nested child errors), contains nothing else, has a node exactly for the prefixes of stored paths, and is empty iff there are no errors. The model is tied to errors.py on every run by a "
+            "differential test (random error forests through the real tree classes vs the extracted model, node by node) and the property's oracle runs on the trees of real validations, also on re-used validators.",
+            "DESIGN.md section 6 C11"),
+    "C12": ("Path-resolution oracle on every validation error of the real code (document path -> value, schema path -> constraint, code/rule consistency, children exactly on group errors), evaluated after reading "
+            "the errors property; full error keys diffed against the Spec/Impl models.", "DESIGN.md section 6 C12"),
+    "C13": ("Purity / completeness oracle on the real errors property; the real BasicErrorHandler logic under a token message table diffed node by node against the Coq handler model fed with the real error lists.",
+            "DESIGN.md section 6 C13"),
+    "C14": ("Inline schema vs every single reference substitution and random subsets (module-level and validator-bound registries), allow_unknown by name, self-referential definitions under an alarm.",
+            "DESIGN.md section 6 C14"),
+    "C15": ("Canonical schema vs every single <of>_<rule> / deprecated-name / spaces rewrite at every rule-set position (also allow_unknown rule sets, registries, schemas with references): acceptance, exposed validator.schema, outcomes.",
+            "DESIGN.md section 6 C15"),
+    "C16": ("Fresh subclass and sibling per case; extensions planted at random depth record the class and extra configuration of the instance running them; isolation against base and sibling in every order.",
+            "DESIGN.md section 6 C16"),
+    "C17": ("Dependency graphs of default setters (exhaustive on 2 fields, sampled/exhaustive on 3, random on 4-6): result vs independently computed least fixpoint, error attribution, step bound; sample diffed against the Coq work-list model.",
+            "DESIGN.md section 6 C17"),
+    "C18": ("Deterministic line-granular scheduler over real threads: systematic single preemptions after every line writing shared state, double preemptions, random schedules, free-running soak; each thread vs the body executed alone. "
+            "PARTIAL: preemption inside a source line and C-level effects cannot be exhibited.", "DESIGN.md section 6 C18"),
 }
+NOTE = ("Trusted: Coq 8.16.1 kernel for the theorems listed in the evidence; hand-written models bound to the code only by the correspondence runs; translator/translate.py (fail-closed) for the extracted facts; "
+        "extraction (ExtrOcamlBasic, ExtrOcamlString) and driver/driver.ml; harness generators, canonicaliser and oracles; CPython 3.12. Known findings are listed in known_findings.json.")
+TECH = {"proof": "Rocq proof about the executable model + model/code correspondence check + real-code oracle",
+        "translation_validation": "Rocq executable model (Spec/Impl facts) diffed against the code + real-code oracle; theorems in progress",
+        "exploration": "schema-directed differential oracle on the real code (Rocq model/theorems for this property in progress)"}
+
+CLAIMED = {}
+for _i in range(1, 19):
+    _pid = "C%02d" % _i
+    if os.path.exists(os.path.join(VERIF, "harness", "props", _pid.lower() + ".py")):
+        _lv = level_of(_pid)
+        CLAIMED[_pid] = {"category": _lv, "text": TEXT[_pid][0], "design_ref": TEXT[_pid][1], "note": NOTE, "technique": TECH[_lv]}
 
 NOT_YET = "check not built yet (construction in progress; see DESIGN.md section 11)"
 
